@@ -13,8 +13,9 @@ Print Assumptions C05_chunk_independent.
 
 (* Default mode: for an input that is leading separators followed by well-formed words, each
    followed by separators (blank = space or tab, and newline; nothing else separates), the reader
-   yields exactly the unquoted words, in order, flagged hard iff the first separator after the
-   word is a newline - nothing for leading, trailing or repeated separators, and an empty
+   yields exactly the unquoted words, in order, flagged hard (the word ends its input line) iff the
+   first separator after the word is a newline and the word does not end in a backslash-quoted blank
+   (XReadSpec.hard_item: a line ending in a blank continues on the next line) - nothing for leading, trailing or repeated separators, and an empty
    argument for '' or "" wherever it stands - whatever the chunking. *)
 Theorem C05_words_exact : forall chunks lead l,
   all_ws lead = true -> items_ok l = true -> concat chunks = lead ++ render_items l ->
@@ -56,5 +57,8 @@ Example C05_witness :
   all_ws [32; 32] = true /\ items_ok l = true /\
   ws_read [[32; 32; 97; 32; 39; 98]; [32; 99; 39; 92]; [32; 100; 10; 10; 101; 32; 32]]
   = Ok [([97], false); ([98; 32; 99; 32; 100], true); ([101], false)] /\
-  ws_read [[39; 39; 32; 120; 13; 32; 92]] = Ok [([], false); ([120; 13], false)].
+  ws_read [[39; 39; 32; 120; 13; 32; 92]] = Ok [([], false); ([120; 13], false)] /\
+  (* "a\ <newline>b<newline>": the first line ends in a blank (quoted: it belongs to the argument), so it continues on the next *)
+  ws_read [[97; 92]; [32; 10; 98; 10]] = Ok [([97; 32], false); ([98], true)] /\
+  expected [([P 97; B 32], [10]); ([P 98], [10])] = [([97; 32], false); ([98], true)].
 Proof. vm_compute. repeat split. Qed.
